@@ -22,6 +22,8 @@ class CallMixin:
             v = self.ev1(node.args[0], entry, fr0)
             if isinstance(v, Ref) and isinstance(entry.get(v), HArr):
                 v = self.spec_arr(v, entry)
+            elif isinstance(v, Ref) and type(entry.get(v)).__name__ == "HBO":
+                v = entry.get(v)          # immutable snapshot of the byte-order view at entry
             elif isinstance(v, Ref) and isinstance(entry.get(v), HArr2):
                 h = entry.get(v)
                 v = Spec2(h.kind, h.n0, h.n1, h.data)
